@@ -60,7 +60,7 @@ Definition latest_locator (s : store) : option (list N) :=
 
 (* ---------------- locateHeadersGetHeaders ---------------- *)
 
-Inductive lerr := EStopLow.
+Inductive lerr := EStopLow | ELocatorLookup.
 Inductive lres := LOk (l : list row) | LErr (e : lerr).
 
 (* sqlGetHeadersHeight: COALESCE(MAX(height), 0) over LONGEST_CHAIN rows whose hash is IN the locator *)
@@ -97,7 +97,7 @@ Definition range_L (s : store) (lo hi : Z) : list row :=
    - an empty locator skips the IN (?) query and starts at height 0 (there is no "no locators" error any more);
    - when the stop height is 0 the LONGEST_CHAIN header at height 0 is looked up (GetHeaderByHeight(0)); if the
      stop hash is that header's hash the request is refused like any stop at or below the start. *)
-Definition locate (s : store) (locs : list N) (stop : N) : lres :=
+Definition locate_core (s : store) (locs : list N) (stop : N) : lres :=
   let start := match locs with [] => 0 | _ :: _ => start_height s locs end in
   let stopH := if N.eqb stop 0 then start + cap else stop_height s stop in
   if (stopH =? 0) && (match by_height_L s 0 with Some g => N.eqb (id g) stop | None => false end)
@@ -108,6 +108,16 @@ Definition locate (s : store) (locs : list N) (stop : N) : lres :=
     else
       let stopH := if cap <? stopH - start then start + cap else stopH in
       LOk (range_L s (start + 1) stopH).
+
+(* sqlGetHeadersHeight binds one SQL variable per locator hash (sqlx.In).  SQLite refuses a statement with more than
+   SQLITE_MAX_VARIABLE_NUMBER variables ("too many SQL variables"); the documented default since SQLite 3.32 - and
+   the value of the bundled mattn/go-sqlite3 amalgamation - is 32766.  GetHeadersStartHeight then fails and
+   locateHeadersGetHeaders returns "error getting headers of locators": the request is refused.  This limit is a
+   parameter of the tie (the correspondence check runs locators of 32765..32768 and 40001 hashes); it is far above
+   wire.MaxBlockLocatorsPerMsg = 500, the most a getheaders message can carry. *)
+Definition sql_max_vars : Z := 32766.
+Definition locate (s : store) (locs : list N) (stop : N) : lres :=
+  if sql_max_vars <? Z.of_nat (length locs) then LErr ELocatorLookup else locate_core s locs stop.
 
 (* what a peer receives: LocateHeaders logs the error and returns nil; handleGetHeadersMsg sends nothing *)
 Definition answer (r : lres) : list row := match r with LOk l => l | LErr _ => [] end.
